@@ -43,7 +43,8 @@ func (m c19) Run(ctx *core.Ctx) {
 	r := ctx.Rng
 	n := split(tierN(ctx.Tier, 300_000, 4_000_000), ctx.Shard, ctx.NShards)
 	for i := int64(0); i < n; i++ {
-		in := gen.Pick(r, []string{"http://h/", "http://h:80/", "http://h:8080/", "gopher://h/", "gopher://h:70/", "gopher://h:7070/x", "https://h:443/", "file:///x", "file://h/x", "ws://h:81/"})
+		in := gen.Pick(r, []string{"http://h/", "http://h:80/", "http://h:8080/", "gopher://h/", "gopher://h:70/", "gopher://h:7070/x", "https://h:443/", "file:///x", "file://h/x", "ws://h:81/",
+			"postgres://10.0.0.7:5432/db", "postgres://h/", "postgres://0x7f.1:1/", "x://1.2.3.4:1/", "x://h:2/", "a-very.long+scheme-name9://h:65535/p", "a-very.long+scheme-name9://1.1/p", "gopher://1.2.3.4/", "file://1.2.3.4/x"})
 		if r.IntN(2) == 0 {
 			in = gen.StartURL(r)
 		}
@@ -150,7 +151,7 @@ func checkAccessorsWith(s obs.Snap, stdDefaultPorts map[string]string, stdSpecia
 
 // c19Tables: parsers with their own special-scheme tables (the accessors must follow the
 // table of the parser that made the URL, whatever other parsers in the process use).
-var c19Tables = []string{"gopher", "http8080", "nofile"}
+var c19Tables = []string{"gopher", "http8080", "nofile", "long"}
 
 func (m c19) execTable(ctx *core.Ctx, cs *core.Case) {
 	arg := cs.Config[0]
@@ -179,7 +180,7 @@ func (m c19) execTable(ctx *core.Ctx, cs *core.Case) {
 		// OpaquePath/IsIPv4 shape rules are those of the default table; check the table-dependent accessors
 		var bad []string
 		for _, b := range checkAccessorsWith(s, ports, special) {
-			if strings.HasPrefix(b, "DecodedPort") || strings.HasPrefix(b, "IsSpecialScheme") || strings.HasPrefix(b, "Protocol") || strings.HasPrefix(b, "Search") || strings.HasPrefix(b, "Hash") || strings.HasPrefix(b, "IsIPv6") {
+			if strings.HasPrefix(b, "DecodedPort") || strings.HasPrefix(b, "IsSpecialScheme") || strings.HasPrefix(b, "Protocol") || strings.HasPrefix(b, "Search") || strings.HasPrefix(b, "Hash") || strings.HasPrefix(b, "IsIPv6") || strings.HasPrefix(b, "IsIPv4") {
 				bad = append(bad, b)
 			}
 		}
